@@ -522,6 +522,24 @@ fn judge_case(c: &SCase) -> Verdict {
                 }
             }
         }
+        // the mirrored situation: the typed sequence is the plain twin - another sequence has
+        // an O- group, and what is typed runs through that group's keys in one of its orders
+        if !twin {
+            let mods: Vec<u16> = ["lsft", "rsft", "lctl", "rctl", "lalt", "ralt", "lmet", "rmet"].iter().map(|m| code_of(m)).collect();
+            let all_typed: Vec<u16> = chars_all.iter().filter_map(|ci| if let Step::Down(k) = steps_all[*ci] { Some(k) } else { None }).collect();
+            for (j, other) in c.seqs.iter().enumerate() {
+                if j == which || !other.iter().any(|it| matches!(it, SI::Overlap(_))) {
+                    continue;
+                }
+                for oe in encodings(other) {
+                    let Some(end) = oe.iter().position(|x| *x == OVERLAP) else { continue };
+                    let prefix: Vec<u16> = oe[..end].iter().map(|x| x & 0x03ff).filter(|x| !mods.contains(x)).collect();
+                    if !prefix.is_empty() && all_typed.len() >= prefix.len() && all_typed[..prefix.len()] == prefix[..] {
+                        twin = true;
+                    }
+                }
+            }
+        }
         twin
     };
     if expect_fire {
@@ -532,7 +550,7 @@ fn judge_case(c: &SCase) -> Verdict {
             return Verdict::failed("mismatch:sequence-not-fired-exactly-once", format!("{}\nvirtual keys fired: {fired:?}, expected exactly [{which}]", describe()));
         }
     } else if !fired.is_empty() {
-        if !fired.contains(&which) && cut_at.is_none() && has_twin() {
+        if !fired.contains(&which) && has_twin() {
             return Verdict::failed("mismatch:overlap-group-then-more-with-twin:fired-other", format!("{}\nvirtual keys fired: {fired:?}, expected none", describe()));
         }
         return Verdict::failed("mismatch:sequence-fired-unexpectedly", format!("{}\nvirtual keys fired: {fired:?}, expected none", describe()));
